@@ -108,7 +108,9 @@ AuthShapes == {[cred |-> "cookie", age |-> 0], [cred |-> "cookie", age |-> 8 * 3
                [cred |-> "cookie", age |-> 16 * 3600 - 60], [cred |-> "basic", age |-> 0],
                [cred |-> "kmcert", age |-> 3600], [cred |-> "kmcert", age |-> Day - 1],
                [cred |-> "kmcert", age |-> Day + 60], [cred |-> "kmcert", age |-> 30 * Day],
-               [cred |-> "ipcert", age |-> 0]}
+               [cred |-> "ipcert", age |-> 0],
+               \* an IP-restricted certificate that itself lives for a year (e.g. minted by an external CA the operator trusts)
+               [cred |-> "ipcert_long", age |-> 0]}
 
 Worlds == {"plain", "ed25519ca", "realm", "ext1", "ext2", "groups"}
 ExtOf(w, norm) == CASE w = "ext1" -> {<<"login@example.com", norm>>}
@@ -127,12 +129,14 @@ Fresh == [cred |-> "cookie", age |-> 0]
 InC02(r) == \E u \in NameClasses, k \in GoodKeys, p \in UserPaths, w \in Worlds, t \in {"self", "other", "othercase"} :
               r = Req(p, u, k, D1h, Fresh, t, w)
 InC03(r) == \/ \E d \in Durations, a \in AuthShapes, p \in UserPaths :
-                 r = Req(p, IF a.cred = "ipcert" THEN Svc ELSE Alice, Key("p256", "ecdsa", 256, 0, TRUE), d, a, "self", "plain")
+                 r = Req(p, IF a.cred \in {"ipcert", "ipcert_long"} THEN Svc ELSE Alice, Key("p256", "ecdsa", 256, 0, TRUE), d, a, "self", "plain")
             \/ \E p \in AutoPaths \cup {"awsrole"}, d \in {Dur("absent", FALSE, TRUE, 0), Dur("100h", TRUE, TRUE, 360000),
                                                             Dur("2562047h47m16.854775807s", TRUE, TRUE, MaxI)} :
                  r = Req(p, Svc, Key("p256", "ecdsa", 256, 0, TRUE), d,
                          [cred |-> (IF p = "refresh" THEN "ipcert" ELSE IF p = "role" THEN "cookie" ELSE "aws"), age |-> 0],
                          "self", "plain")
+            \/ \E d \in {Dur("absent", FALSE, TRUE, 0), Dur("100h", TRUE, TRUE, 360000)} :
+                 r = Req("refresh", Svc, Key("p256", "ecdsa", 256, 0, TRUE), d, [cred |-> "ipcert_long", age |-> 0], "self", "plain")
 InC10(r) == \E k \in AllKeys, p \in Paths :
               r = Req(p, IF p \in UserPaths THEN Alice ELSE Svc, k, D1h,
                       [cred |-> (IF p = "refresh" THEN "ipcert" ELSE IF p = "awsrole" THEN "aws" ELSE "cookie"), age |-> 0],
